@@ -119,6 +119,7 @@ Definition property (sc : scen) (o : obs) : verdict :=
   (* 6: counters equal what crossed the wire *)
   let nread := count_ev 2 0 20 (o_events o) in
   let p6 :=
+    (o_statsbad o =? 0) &&   (* Get / Copy / Clone / out-of-range accessors of x/stats agree *)
     match o_counters o with
     | [ps; bs; pr; br] =>
         (negb (clean && (o_eof o =? 1) && (o_inconcl o =? 0)) ||
